@@ -62,6 +62,19 @@ Msg(q, a, n, r, v) ==
      ns |-> [i \in 1..n |-> R(q + a + i, v)],
      ar |-> [i \in 1..r |-> R(q + a + n + i, v)]]
 
+(* TYPE and CLASS are 16-bit numbers that a codec carries unchanged, whatever meaning a registry attaches to them: every value
+   RFC 1035 / 2136 / 2671 / 6891 / 6762 single out (NULL 10, OPT 41 whose CLASS is a payload size, the QTYPEs 249..255, the
+   QCLASSes NONE 254 and ANY 255, the mDNS cache-flush bit 0x8000, the EDNS sizes around 512) crossed with one another, in a
+   question and in a record of each section *)
+SpecialTypes == {0, 1, 2, 5, 6, 10, 12, 13, 15, 16, 28, 33, 41, 43, 46, 47, 48, 249, 250, 251, 252, 253, 254, 255, 256, 257, 32768, 65280, 65535}
+SpecialClasses == {0, 1, 3, 4, 254, 255, 256, 511, 512, 513, 1232, 4096, 32768, 32769, 65535}
+TCMsg(t, cl) ==
+    [id |-> (t * 31 + cl) % 65536, flags |-> 32768,
+     qd |-> <<[n |-> <<LA, LB>>, t |-> t, c |-> cl]>>,
+     an |-> <<[n |-> <<LA, LB>>, t |-> t, c |-> cl, ttl |-> <<0, 30>>, rd |-> RData(4, 1)]>>,
+     ns |-> <<[n |-> <<LB>>, t |-> t, c |-> cl, ttl |-> <<0, 0>>, rd |-> <<>>]>>,
+     ar |-> <<[n |-> <<>>, t |-> t, c |-> cl, ttl |-> <<0, 32768>>, rd |-> RData(11, 2)]>>]
+
 (* the specification's own laws, checked for every emitted message (a failure is a broken oracle, not a verdict) *)
 SelfCheck(m, plain, packed) ==
     LET dp == LLMNRDecode(plain)  dc == LLMNRDecode(packed) IN
@@ -142,6 +155,12 @@ Init ==
             /\ c = <<"rootdot", m>>
             /\ SelfCheck(m, plain, packed)
             /\ Emit([k |-> "rootdot", shape |-> <<m.id>>, m |-> m, plain |-> plain, packed |-> packed])
+    \/ /\ "typeclass" \in Kinds
+       /\ \E t \in SpecialTypes, cl \in SpecialClasses :
+            LET m == TCMsg(t, cl)  plain == LLMNREncode(m)  packed == LLMNREncodeC(m) IN
+            /\ c = <<"typeclass", t, cl>>
+            /\ SelfCheck(m, plain, packed)
+            /\ Emit([k |-> "msg", shape |-> <<-1, t, cl>>, m |-> m, plain |-> plain, packed |-> packed])
     \/ /\ "name" \in Kinds
        /\ \E n \in Names :
             /\ c = <<"name", n>>
